@@ -28,7 +28,8 @@ RULE = ('one case = one seeded history of 5-60 store / bulk store / load / load 
         'groups 999/1000, 9999/10000, 999999/1000000, equal x/y at different levels, x/y swapped, dimension sets '
         'differing in one value, equal single colours) on one backend+layout, optionally with one injected I/O error '
         'inside a mutating call; non-trivial = the history overwrote or removed a present address and later read it '
-        '(or a colliding one) back; distinct = distinct (backend, operation list, fault) hash')
+        '(or a colliding one) back; distinct = distinct (backend, operation list, fault) hash; about one case in 200 instead '
+        'runs a three-phase history in three separately started interpreters (different hash seeds) on a real directory')
 COMPONENTS = {
     'real': ['mapproxy.cache.file.FileCache + cache/path.py (all layouts, symlink/hardlink, dimensions)',
              'mapproxy.cache.compact.CompactCacheV1/V2', 'mapproxy.cache.mbtiles.MBTilesCache/MBTilesLevelCache',
@@ -52,7 +53,115 @@ BACKENDS = (
 _seq = [0]
 
 
+XPROC_SCRIPT = r'''
+import json, sys, hashlib
+spec = json.loads(sys.argv[1])
+sys.path.insert(0, spec['verif'])
+from checks import common as C
+b = dict(spec['backend'])
+if b['type'].startswith('geopackage'):
+    from mapproxy.grid import tile_grid
+    b['grid'] = tile_grid(3857, origin='nw')
+cache = C.make_cache(b, spec['dir'])
+out = []
+for op in spec['ops']:
+    dims = op[2]
+    kw = {'dimensions': dims} if dims is not None else {}
+    if op[0] == 'store':
+        r = cache.store_tile(C.make_tile(op[1], C.payload(op[3])), **kw)
+        out.append(r is not False)
+    elif op[0] == 'remove':
+        cache.remove_tile(C.make_tile(op[1]), **kw)
+        out.append(None)
+    else:
+        t = C.make_tile(op[1])
+        cache.load_tile(t, **kw)
+        data = C.read_tile_bytes(t) if t.source is not None else None
+        out.append(None if data is None else hashlib.sha256(data).hexdigest())
+if hasattr(cache, 'cleanup'):
+    cache.cleanup()
+print(json.dumps(out))
+'''
+
+
+def _gen_xproc(t):
+    b = copy.deepcopy(t.weighted(BACKENDS))
+    pool = []
+    start = t.choice(len(M.CATALOGUE))
+    for i in range(t.randint(3, 8)):
+        c = M.CATALOGUE[(start + i) % len(M.CATALOGUE)]
+        if c not in pool:
+            pool.append(c)
+    dims = t.pick(M.DIMSETS[1:] + [M.DIMSETS[4]] * 3) if b['type'] == 'file' and t.chance(0.6) else None
+    phases = []
+    for _ in range(3):
+        ops = []
+        for _ in range(t.randint(2, 6)):
+            k = t.weighted([('store', 5), ('remove', 1), ('load', 2)])
+            c = t.pick(pool)
+            d = dims if t.chance(0.5) else None
+            ops.append([k, c, d] + ([M.gen_payload(t, b.get('link'))] if k == 'store' else []))
+        phases.append({'hashseed': t.randint(1, 4000), 'ops': ops})
+    return {'kind': 'xproc', 'backend': b, 'pool': pool, 'dims': dims, 'phases': phases}
+
+
+def _run_xproc(sc, tape):
+    """the same store used by separately started interpreters one after the other (server restarts, seeding tool and
+    server): what one stored the next one loads - nothing about an address may depend on the interpreter"""
+    import hashlib
+    import json
+    import subprocess
+    import mapproxy
+    b = sc['backend']
+    name = C.backend_name(b)
+    d = _real_dir()
+    model = {}
+    v = None
+    n = 0
+    try:
+        for pi, ph in enumerate(sc['phases']):
+            ops = list(ph['ops'])
+            if pi == len(sc['phases']) - 1:
+                ops += [['load', c, dd] for c in sc['pool'] for dd in ([None, sc['dims']] if sc['dims'] else [None])]
+            spec = {'verif': os.path.dirname(os.path.dirname(os.path.abspath(__file__))), 'backend': b, 'dir': d + '/cache', 'ops': ops}
+            env = dict(os.environ, PYTHONHASHSEED=str(ph['hashseed']),
+                       PYTHONPATH=os.path.dirname(os.path.dirname(os.path.abspath(mapproxy.__file__))))
+            pr = subprocess.run([sys.executable, '-B', '-c', XPROC_SCRIPT, json.dumps(spec)], env=env, stdout=subprocess.PIPE,
+                                stderr=subprocess.PIPE, timeout=300)
+            if pr.returncode != 0:
+                raise RuntimeError('xproc helper failed: %s' % pr.stderr.decode('utf-8', 'replace')[-1500:])
+            outs = json.loads(pr.stdout.decode().strip().splitlines()[-1])
+            for op, out in zip(ops, outs):
+                key = M.akey(op[1], op[2])
+                if op[0] == 'store':
+                    if not out:
+                        v = {'sig': 'C05:store-failed:%s:across-interpreters' % name,
+                             'msg': 'interpreter %d: store_tile%s returned %r' % (pi, (tuple(op[1]), op[2]), out)}
+                        break
+                    model[key] = hashlib.sha256(C.payload(op[3])).hexdigest()
+                elif op[0] == 'remove':
+                    model.pop(key, None)
+                else:
+                    n += 1
+                    if out != model.get(key):
+                        kind = 'lost' if out is None else ('phantom' if model.get(key) is None else 'wrong-bytes')
+                        v = {'sig': 'C05:%s:%s:across-interpreters' % (kind, name),
+                             'msg': 'interpreter %d (PYTHONHASHSEED=%s) loads address %s dims %s: sha256 %s, but the latest store '
+                                    '(by an earlier interpreter or this one) was %s' % (pi, ph['hashseed'], tuple(op[1]), op[2],
+                                                                                       out and out[:12], model.get(key) and model.get(key)[:12])}
+                        break
+            if v:
+                break
+    finally:
+        shutil.rmtree(d, ignore_errors=True)
+    return {'violation': v, 'digest': C.digest_of('xproc', b, sc['phases']), 'nontrivial': True, 'steps': n, 'sim_time': 0.0,
+            'faults': {}, 'probes': {'across_interpreters': 1},
+            'sample': {'backend': name, 'mode': 'across-interpreters', 'phases': len(sc['phases'])}}
+
+
 def gen(t, tier):
+    if t.chance(0.005):
+        return _gen_xproc(t)
     b = copy.deepcopy(t.weighted(BACKENDS))
     npool = t.randint(3, 12)
     # bias the pool to neighbouring catalogue entries (they are the ones that collide)
@@ -78,6 +187,13 @@ def gen(t, tier):
 
 
 def shrink(sc):
+    if sc.get('kind') == 'xproc':
+        for i in range(len(sc['phases'])):
+            for j in range(len(sc['phases'][i]['ops'])):
+                c = copy.deepcopy(sc)
+                del c['phases'][i]['ops'][j]
+                yield c
+        return
     for c in M.shrink_ops(sc):
         yield c
     if len(sc['dimsets']) > 1:
@@ -113,6 +229,8 @@ def _real_dir():
 
 
 def run(sc, tape):
+    if sc.get('kind') == 'xproc':
+        return _run_xproc(sc, tape)
     b = sc['backend']
     name = C.backend_name(b)
     onsim = b['type'] in ('file', 'compact')
